@@ -280,4 +280,39 @@ theorem struct_covers (members : List (Nat × Nat × TMap)) (j : Nat) :
 
 theorem resized_covers (t : TMap) (ext j : Nat) : (resized t ext).covers j = t.covers j := rfl
 
+
+theorem contiguous_one_blocks (t : TMap) : (contiguous 1 t).blocks = t.blocks.map (shift 0) := by
+  simp [contiguous, List.range_succ]
+
+theorem shift_zero_map (bs : List (Nat × Nat)) : bs.map (shift 0) = bs := by
+  induction bs with
+  | nil => rfl
+  | cons b bs ih => simp [shift, ih]
+
+theorem contiguous_one_covers (t : TMap) (j : Nat) : (contiguous 1 t).covers j = t.covers j := by
+  rw [covers_eq_coversL, contiguous_one_blocks, shift_zero_map]; rfl
+
+theorem pair_blocks (off1 off2 size : Nat) (t1 t2 : TMap) :
+    (Types.pair off1 t1 off2 t2 size).blocks = t1.blocks.map (shift off1) ++ t2.blocks.map (shift off2) := by
+  simp [Types.pair, resized, struct, contiguous_one_blocks, shift_zero_map]
+
+/-- a pair covers a cell iff one of its members (at its offset) covers it — for arbitrary member typemaps -/
+theorem pair_covers (off1 off2 size : Nat) (t1 t2 : TMap) (j : Nat) :
+    (Types.pair off1 t1 off2 t2 size).covers j = true ↔
+      (off1 ≤ j ∧ t1.covers (j - off1) = true) ∨ (off2 ≤ j ∧ t2.covers (j - off2) = true) := by
+  rw [covers_eq_coversL, pair_blocks, coversL_append, Bool.or_eq_true, coversL_shift, coversL_shift]
+  simp only [Bool.and_eq_true, decide_eq_true_eq]
+  rfl
+
+theorem pair_wf (off1 off2 size : Nat) (t1 t2 : TMap) (h1 : ∀ b ∈ t1.blocks, off1 + b.1 + b.2 ≤ size)
+    (h2 : ∀ b ∈ t2.blocks, off2 + b.1 + b.2 ≤ size) : (Types.pair off1 t1 off2 t2 size).wf := by
+  intro b hb
+  rw [pair_blocks] at hb
+  have hext : (Types.pair off1 t1 off2 t2 size).extent = size := rfl
+  rw [hext]
+  simp only [List.mem_append, List.mem_map] at hb
+  rcases hb with ⟨c, hc, rfl⟩ | ⟨c, hc, rfl⟩
+  · exact h1 c hc
+  · exact h2 c hc
+
 end DV.C07.Proofs
